@@ -15,11 +15,11 @@ import (
 
 // step kinds
 const (
-	sFull      = 0 // everything that was asked for (subject to ServerMax / tree size)
-	sPrefix    = 1 // a strict non-empty prefix where the request allows one
-	sHTTPError = 2 // transient HTTP status (never 500, see Slow500)
-	sClose     = 3 // connection closed without a response
-	sShortBody = 4 // 200 with a body shorter than its Content-Length
+	sFull        = 0 // everything that was asked for (subject to ServerMax / tree size)
+	sPrefix      = 1 // a strict non-empty prefix where the request allows one
+	sHTTPError   = 2 // transient HTTP status (never 500, see Slow500)
+	sClose       = 3 // connection closed without a response
+	sShortBody   = 4 // 200 with a body shorter than its Content-Length
 	numStepKinds = 5
 )
 
